@@ -391,6 +391,11 @@ func genC01(c *Ctx) {
 				s = rf[i-50]
 			}
 		}
+		if i >= 100 && i < 140 && i%9 != 4 {
+			if bb := blobBeforeNormalCases(c, r); i-100 < len(bb) {
+				s = bb[i-100]
+			}
+		}
 		if i%9 == 4 {
 			// only blob transactions (the kept list is then the blob group alone)
 			var only []genTx
@@ -1043,6 +1048,20 @@ func genC07(c *Ctx) {
 		if !c.check(err == nil, "Build", "error", wit) {
 			continue
 		}
+		{
+			// the list the caller passed is the caller's: after Build it must still hold the same transactions in
+			// the same positions (a caller that builds again, or asks for ranges, uses it as it was)
+			given := rawsOf(s.txs)
+			orig := append([][]byte{}, given...)
+			sqA, _, errA := square.Build(given, s.max, s.thr)
+			unchanged := len(given) == len(orig)
+			for j := 0; unchanged && j < len(orig); j++ {
+				unchanged = bytes.Equal(given[j], orig[j])
+			}
+			c.check(unchanged, "Build", "rewrote the list of transactions it was given", wit)
+			sqB, _, errB := square.Build(given, s.max, s.thr)
+			c.check(errA == nil && errB == nil && sameSquare(sqA, sqB) && sameSquare(sqA, sq), "Build", "a second Build of the same list gives a different square", wit)
+		}
 		normals, pfbs := refKeep(rawsOf(s.txs), s.max, s.thr)
 		var refKept [][]byte
 		refKept = append(refKept, normals...)
@@ -1552,6 +1571,33 @@ func refusedInFirstShareCases(c *Ctx, r *Rng) []sqCase {
 				out = append(out, sqCase{txs: l, max: max, thr: 64})
 				c.count("refused_inside_first_compact_share")
 			}
+		}
+	}
+	return out
+}
+
+// blobBeforeNormalCases: a blob transaction whose blob is wider than one subtree (thresholds 1-3, 4..16 shares)
+// IN FRONT OF ordinary transactions in the input, one of which opens a new compact share: Build appends in input
+// order, Construct appends the kept list (ordinary first) - the two must still estimate and lay out the same square
+func blobBeforeNormalCases(c *Ctx, r *Rng) []sqCase {
+	var out []sqCase
+	nss := blobNamespaces(r, 2)
+	for _, thr := range []int{1, 2, 3} {
+		for n := 4; n <= 16; n++ {
+			b := randBlob(r, nss, 100)
+			b.ver, b.signer = 0, nil
+			b.data = r.Bytes(478 + 482*(n-1) - r.Intn(300))
+			bl := []genBlob{b}
+			bt := genTx{raw: blobTxWithInner(r.Bytes(40+r.Intn(100)), bl), blobs: bl}
+			l := []genTx{bt, {raw: r.Bytes(50 + r.Intn(300))}}
+			if n%2 == 0 {
+				l = append(l, genTx{raw: r.Bytes(500 + r.Intn(600))})
+			}
+			if n%3 == 0 {
+				l = append([]genTx{{raw: r.Bytes(20 + r.Intn(100))}}, l...)
+			}
+			out = append(out, sqCase{txs: l, max: 64, thr: thr})
+			c.count("blob_tx_before_ordinary_small_threshold")
 		}
 	}
 	return out
